@@ -1,4 +1,7 @@
 """C14 Calling an interface follows the PEP 246 adaptation order."""
+import json
+import os
+
 from vlib.harness import Harness
 from vlib.symx import Violation, assume, native, pick, reached
 
@@ -344,6 +347,509 @@ def make_e_registry(params, part, nparts):
     return h
 
 
+
+# ---------------------------------------------------------------------------------------------------------------
+# Engine C (functional mode): IB__call__ / IB__adapt__ from the LLVM IR of the current C source
+# ---------------------------------------------------------------------------------------------------------------
+
+class _CallWorld:
+    """Environment of IB__call__ / IB__adapt__: every C-API call that can run Python or fail is a decision; every such
+    step is logged as an event, so a path summary is (ordered events with their outcomes, result, pending exception)."""
+
+    def __init__(self, irfun, cstr, nhooks, entry):
+        self.irfun, self.cstr, self.nhooks, self.entry = irfun, cstr, nhooks, entry
+        P = irfun.P
+        self.NONE = P('Py_None', 'none', immortal=True)
+        self.ATTRERR = P('PyExc_AttributeError', 'exc', immortal=True)
+        self.TYPEERR = P('PyExc_TypeError', 'exc', immortal=True)
+        self.OTHERERR = P('an exception raised by called code', 'exc', immortal=True)
+        self.names = {k: P(repr(v), 'attrname', immortal=True, text=v) for k, v in
+                      dict(str__conform__='__conform__', str_call_conform='_call_conform', str__adapt__='__adapt__').items()}
+        self.globals = {'&_Py_NoneStruct': self.NONE, 'PyExc_AttributeError': self.ATTRERR, 'PyExc_TypeError': self.TYPEERR}
+        self.globals.update(self.names)
+        self.globals['&IB__call__.kwlist'] = P('kwlist', 'cdata', immortal=True)
+        st = dict(irfun.COMMON_STUBS)
+        st.update({
+            'PyArg_ParseTupleAndKeywords': self.parse, 'PyObject_GetAttr': self.getattr_,
+            'PyObject_CallMethodObjArgs': self.callmethod, 'PyDict_GetItemString': self.getitemstring,
+            '_get_module': lambda ex, a, site: self.MODULE, 'Py_TYPE': lambda ex, a, site: a[0].type,
+            'providedBy': self.providedby, '_get_specification_base_class': lambda ex, a, site: self.SBTYPE,
+            'PyObject_TypeCheck': lambda ex, a, site: 1 if getattr(a[0], 'kind', None) == 'spec' else 0,
+            'PyDict_GetItem': self.dictget, 'PyObject_CallFunctionObjArgs': self.callfunction, 'PyObject_IsTrue': self.istrue,
+            'PyTuple_New': self.tuplenew, 'PyTuple_SET_ITEM': self.tupleset, '_get_adapter_hooks': lambda ex, a, site: ex.hooks,
+            'PyList_GET_SIZE': lambda ex, a, site: len(a[0].items), 'PyList_GET_ITEM': lambda ex, a, site: a[0].items[a[1]],
+            'PyObject_CallObject': self.callobject, 'Py_BuildValue': self.buildvalue,
+        })
+        self.stubs = st
+
+    STUB_DOC = {
+        'PyArg_ParseTupleAndKeywords': '"O|O": fails (exception set) or stores obj and, decided per path, alternate (borrowed references)',
+        'PyObject_GetAttr': 'obj.__conform__: a callable (new reference) / the value None / raises AttributeError / raises another exception',
+        'PyObject_CallMethodObjArgs': 'self._call_conform(conform) or self.__adapt__(obj): raises / returns None / returns a value (new reference)',
+        'PyDict_GetItemString': 'type(self).__dict__ has _CALL_CUSTOM_ADAPT or not (borrowed reference)',
+        'providedBy': 'the module-level C providedBy(obj): fails / a specification (implied dict present, or NULL) / a non-specification (proxy); new reference',
+        'PyDict_GetItem': 'implied.get(self): present or absent (borrowed)',
+        'PyObject_CallFunctionObjArgs': 'proxy(self): raises / returns an object (new reference)',
+        'PyObject_IsTrue': 'truth of the proxy answer: 0 / 1 / -1 with an exception set',
+        'PyTuple_New / PyTuple_SET_ITEM': 'new 2-tuple; SET_ITEM steals the reference (allocation failure outside the claim)',
+        '_get_adapter_hooks / PyList_GET_SIZE / PyList_GET_ITEM': 'the adapter_hooks list of the module state: 0..3 hooks (borrowed items)',
+        'PyObject_CallObject': 'hook(self, obj): raises / returns None / returns a value (new reference)',
+        'Py_BuildValue': 'new tuple of the given arguments (format "sOO")',
+        '_get_module / _get_specification_base_class / Py_TYPE': 'module state lookups, assumed not to fail',
+    }
+
+    def setup(self, ex):
+        P = self.irfun.P
+        self.MODULE = P('module', 'module', immortal=True)
+        self.SBTYPE = P('SpecificationBase type', 'type', immortal=True)
+        tp = P('type(self)', 'type', immortal=True)
+        tp.fields[('%struct._typeobject', (31,))] = P('type(self).__dict__', 'dict', immortal=True)
+        me = ex.track(P('self', 'IB', type=tp))
+        me.fields[('%struct._object', (1,))] = tp
+        ex.me = me
+        ex.obj = ex.track(P('obj', 'object'))
+        ex.alt = None
+        ex.hooks = P('adapter_hooks', 'list', immortal=True, items=[ex.track(P('hook%d' % i, 'callable')) for i in range(self.nhooks)])
+        ex.log = []
+        self.NONE.frame = 0            # None is immortal on this interpreter (3.12): its references are not part of the balance
+        if self.entry == 'IB__adapt__':
+            return [me, ex.obj]
+        return [me, P('args', 'tuple', immortal=True), P('kwargs', 'dict', immortal=True)]
+
+    def field(self, ex, base, struct, path):
+        if base.kind == 'spec' and struct == '%struct.SB':
+            return base.implied
+        if base.kind == 'list' and struct == '%struct.PyListObject' and path == (1,):
+            return self.irfun.P('%s.ob_item' % base.label, 'array', immortal=True, items=base.items)      # PyList_GET_ITEM
+        raise self.irfun.Inconclusive('unmodelled field %s%r of %r' % (struct, path, base))
+
+    def ev(self, ex, name, outcome):
+        ex.log.append((name, outcome))
+        ex.events.append((name, outcome))
+
+    def new(self, ex, label, kind='object', **kw):
+        o = ex.track(self.irfun.P(label, kind, **kw))
+        o.frame += 1
+        return o
+
+    def parse(self, ex, a, site):
+        fmt = self.cstr.get(a[2][1]) if isinstance(a[2], tuple) else None
+        if fmt != 'O|O':
+            raise self.irfun.Inconclusive('argument format %r' % (fmt,))
+        c = ex.decide('arguments', ['(obj)', '(obj, alternate)', 'do not parse'])
+        if c == 'do not parse':
+            ex.err = self.TYPEERR
+            self.ev(ex, 'parse', 'fails')
+            return 0
+        a[4].fields[('', ())] = ex.obj
+        if 'alternate' in c:
+            ex.alt = ex.track(self.irfun.P('alternate', 'object'))
+            a[5].fields[('', ())] = ex.alt
+        self.ev(ex, 'parse', c)
+        return 1
+
+    def getattr_(self, ex, a, site):
+        ob, name = a
+        if ob is not ex.obj or name.text != '__conform__':
+            raise self.irfun.Inconclusive('GetAttr(%r, %r)' % (ob, name))
+        c = ex.decide('obj.__conform__', ['a callable', 'is None', 'raises AttributeError', 'raises another exception'])
+        self.ev(ex, 'getattr __conform__', c)
+        if c == 'a callable':
+            return self.new(ex, 'conform', 'callable')
+        if c == 'is None':
+            self.NONE.frame += 1
+            return self.NONE
+        ex.err = self.ATTRERR if 'AttributeError' in c else self.OTHERERR
+        return None
+
+    def _outcome(self, ex, what, label):
+        c = ex.decide(what, ['returns None', 'returns a value', 'raises'])
+        self.ev(ex, what, c)
+        if c == 'raises':
+            ex.err = self.OTHERERR
+            return None
+        if c == 'returns None':
+            self.NONE.frame += 1
+            return self.NONE
+        return self.new(ex, label)
+
+    def callmethod(self, ex, a, site):
+        me, name = a[0], a[1]
+        if me is not ex.me or a[-1] is not None:
+            raise self.irfun.Inconclusive('CallMethodObjArgs shape')
+        if name.text == '_call_conform':
+            if len(a) != 4 or getattr(a[2], 'label', None) != 'conform':
+                return self._bad(ex, 'self._call_conform called with %r' % (a[2:-1],))
+            return self._outcome(ex, 'self._call_conform(conform)', 'result of __conform__')
+        if name.text == '__adapt__':
+            if len(a) != 4 or a[2] is not ex.obj:
+                return self._bad(ex, 'self.__adapt__ called with %r' % (a[2:-1],))
+            return self._outcome(ex, 'self.__adapt__(obj)', 'result of the custom __adapt__')
+        raise self.irfun.Inconclusive('method %r' % name)
+
+    def _bad(self, ex, msg):
+        raise self.irfun.Defect(msg)
+
+    def getitemstring(self, ex, a, site):
+        key = self.cstr.get(a[1][1]) if isinstance(a[1], tuple) else None
+        if a[0].label != 'type(self).__dict__' or key != '_CALL_CUSTOM_ADAPT':
+            raise self.irfun.Inconclusive('GetItemString(%r, %r)' % (a[0], key))
+        c = ex.decide('type(self) has a custom __adapt__ (_CALL_CUSTOM_ADAPT)', ['no', 'yes'])
+        self.ev(ex, 'custom-adapt flag', c)
+        return self.irfun.P('flag', 'object', immortal=True) if c == 'yes' else None
+
+    def providedby(self, ex, a, site):
+        if a[1] is not ex.obj:
+            return self._bad(ex, 'providedBy called with %r' % (a[1],))
+        c = ex.decide('providedBy(obj)', ['a specification', 'a specification without _implied', 'a proxy (not a specification)', 'raises'])
+        self.ev(ex, 'providedBy(obj)', c)
+        if c == 'raises':
+            ex.err = self.OTHERERR
+            return None
+        if c.startswith('a specification'):
+            implied = None if 'without' in c else self.irfun.P('decl._implied', 'dict', immortal=True)
+            return self.new(ex, 'decl', 'spec', implied=implied)
+        return self.new(ex, 'decl', 'proxy')
+
+    def dictget(self, ex, a, site):
+        if getattr(a[0], 'label', '') != 'decl._implied' or a[1] is not ex.me:
+            raise self.irfun.Inconclusive('PyDict_GetItem(%r, %r)' % (a[0], a[1]))
+        c = ex.decide('self in providedBy(obj)._implied', ['no', 'yes'])
+        self.ev(ex, 'provided?', c)
+        return self.irfun.P('implied entry', 'object', immortal=True) if c == 'yes' else None
+
+    def callfunction(self, ex, a, site):
+        if getattr(a[0], 'kind', None) != 'proxy' or a[1] is not ex.me or a[-1] is not None:
+            raise self.irfun.Inconclusive('CallFunctionObjArgs shape')
+        c = ex.decide('proxy(self)', ['returns an object', 'raises'])
+        self.ev(ex, 'proxy(self)', c)
+        if c == 'raises':
+            ex.err = self.OTHERERR
+            return None
+        return self.new(ex, 'proxy answer')
+
+    def istrue(self, ex, a, site):
+        c = ex.decide('truth of the proxy answer', ['false', 'true', 'raises'])
+        self.ev(ex, 'provided?', {'false': 'no', 'true': 'yes', 'raises': 'raises'}[c])
+        if c == 'raises':
+            ex.err = self.OTHERERR
+            return -1
+        return 1 if c == 'true' else 0
+
+    def tuplenew(self, ex, a, site):
+        return self.new(ex, 'hook args', 'tuple', items=[None] * a[0])
+
+    def tupleset(self, ex, a, site):
+        t, i, v = a
+        t.items[i] = v
+        v.frame -= 1                 # steals the reference
+
+    def callobject(self, ex, a, site):
+        hook, args = a
+        i = ex.hooks.items.index(hook) if hook in ex.hooks.items else None
+        if i is None or getattr(args, 'items', None) != [ex.me, ex.obj]:
+            return self._bad(ex, 'hook called as %r(%r)' % (hook, getattr(args, 'items', args)))
+        return self._outcome(ex, 'hook%d(self, obj)' % i, 'result of hook%d' % i)
+
+    def buildvalue(self, ex, a, site):
+        fmt = self.cstr.get(a[0][1]) if isinstance(a[0], tuple) else None
+        items = [self.cstr.get(x[1]) if isinstance(x, tuple) else x for x in a[1:]]
+        return self.new(ex, 'TypeError args', 'tuple', items=items, fmt=fmt)
+
+
+def _pep246_reference(w, ex_log, nhooks, entry):
+    """The order the property states, as an automaton over the same event alphabet: it asks for the steps it expects, in order, and
+    reads their outcomes from the C path's log.  Returns (expected outcome, None) or (None, mismatch description)."""
+    log = list(ex_log)
+    pos = [0]
+
+    class Mismatch(Exception):
+        pass
+
+    def expect(name):
+        if pos[0] >= len(log):
+            raise Mismatch('the C path stops before the step %r that the documented order performs next' % name)
+        got, outcome = log[pos[0]]
+        if got != name:
+            raise Mismatch('the C path performs %r where the documented order performs %r' % (got, name))
+        pos[0] += 1
+        return outcome
+
+    def default_adapt():
+        d = expect('providedBy(obj)')
+        if d == 'raises':
+            return ('raise', 'other')
+        if d == 'a specification without _implied':
+            return ('raise', 'any')            # an uninitialised specification: the C code returns NULL (AttributeError in Python)
+        if d == 'a proxy (not a specification)':
+            if expect('proxy(self)') == 'raises':
+                return ('raise', 'other')
+        p = expect('provided?')
+        if p == 'raises':
+            return ('raise', 'other')
+        if p == 'yes':
+            return ('ret', 'obj')
+        for i in range(nhooks):
+            o = expect('hook%d(self, obj)' % i)
+            if o == 'raises':
+                return ('raise', 'other')
+            if o == 'returns a value':
+                return ('ret', 'result of hook%d' % i)
+        return ('ret', 'Py_None')
+
+    def run():
+        if entry == 'IB__adapt__':
+            return default_adapt()
+        a = expect('parse')
+        if a == 'fails':
+            return ('raise', 'TypeError')
+        c = expect('getattr __conform__')
+        if c == 'raises another exception':
+            return ('raise', 'other')
+        if c == 'a callable':
+            o = expect('self._call_conform(conform)')
+            if o == 'raises':
+                return ('raise', 'other')
+            if o == 'returns a value':
+                return ('ret', 'result of __conform__')
+        if expect('custom-adapt flag') == 'yes':
+            o = expect('self.__adapt__(obj)')
+            r = ('raise', 'other') if o == 'raises' else ('ret', 'result of the custom __adapt__') if o == 'returns a value' else ('ret', 'Py_None')
+        else:
+            r = default_adapt()
+        if r[0] == 'raise' or r[1] != 'Py_None':
+            return r
+        if 'alternate' in a:
+            return ('ret', 'alternate')
+        return ('raise', 'Could not adapt')
+    try:
+        want = run()
+    except Mismatch as e:
+        return None, str(e)
+    if pos[0] != len(log):
+        return None, 'the C path goes on with %r after the documented order has its answer %r' % (log[pos[0]][0], want)
+    return want, None
+
+
+def run_ir_call(tier, ctx):
+    import shutil
+    import time
+    from vlib import irfun
+    t0 = time.time()
+    agg = dict(harness='ir_call', impl='c', kind='IR', paths=0, reached=0, distinct=0, unknown=0, solver_queries=0, solver_s=0.0,
+               samples=[], errors=[], exhaustive=False, jobs=[])
+    out = dict(agg=agg, violations=[], harness_errors=[], replays_attempted=0, replays_reproduced=0)
+    try:
+        text, wd = irfun.build_ir()
+    except Exception as e:
+        out['harness_errors'].append('ir_call: cannot produce the IR: %s' % e)
+        return out
+    found = []
+    try:
+        funcs = irfun.parse(text)
+        cstr = irfun.cstrings(text)
+        for fn in ('IB__call__', 'IB__adapt__'):
+            if fn not in funcs:
+                out['harness_errors'].append('ir_call: %s not found in the IR (renamed?)' % fn)
+                return out
+        exhausted = True
+        outcomes = set()
+        maxh = 2 if tier != 'thorough' else 3
+        for entry in ('IB__adapt__', 'IB__call__'):
+            for nh in range(maxh + 1):
+                w = _CallWorld(irfun, cstr, nh, entry)
+                ex = irfun.FunExec(funcs, entry, w, inline=('IB__adapt__',))
+                sums = ex.run_all(budget_s=120 if tier != 'thorough' else 600)
+                agg['paths'] += ex.stats['paths']
+                agg['solver_queries'] += ex.stats['queries']
+                agg['solver_s'] += ex.stats['solver_s']
+                agg['unknown'] += ex.stats.get('n_inconclusive', 0)
+                for inc in ex.stats['inconclusive'][:2]:
+                    agg['errors'].append('inconclusive (%s, %d hooks): %s' % (entry, nh, inc['reason'][:300]))
+                exhausted = exhausted and bool(ex.stats.get('exhausted')) and not ex.stats.get('n_inconclusive')
+                agg['jobs'].append(dict(entry=entry, hooks=nh, paths=ex.stats['paths'], exhausted=ex.stats.get('exhausted')))
+                for s in sums:
+                    log = [e for e in s.events if e[0] != 'store']
+                    tag = '%s with %d hook(s): %s' % (entry, nh, '; '.join('%s -> %s' % e for e in log))
+                    if isinstance(s.ret, tuple) and s.ret[0] == 'DEFECT':
+                        found.append((tag + ': ' + s.ret[1], log, entry, nh))
+                        continue
+                    want, mismatch = _pep246_reference(w, log, nh, entry)
+                    if mismatch:
+                        found.append((tag + ': ' + mismatch, log, entry, nh))
+                        continue
+                    outcomes.add(want)
+                    if want[0] == 'ret':
+                        ok = s.ret is not None and s.ret.label == want[1] and s.err is None
+                    elif want[1] == 'any':
+                        ok = s.ret is None
+                    elif want[1] == 'Could not adapt':
+                        ok = s.ret is None and s.err is w.TYPEERR
+                    elif want[1] == 'TypeError':
+                        ok = s.ret is None and s.err is w.TYPEERR
+                    else:
+                        ok = s.ret is None and s.err is w.OTHERERR
+                    if not ok:
+                        if want == ('raise', 'other') and s.ret is not None and any(e == ('provided?', 'raises') for e in log):
+                            # PyObject_IsTrue() == -1 on a security-proxy answer is taken as true: only reachable with a proxy whose
+                            # answer has a raising __bool__; recorded as informational (outside the property's quantifier)
+                            agg.setdefault('informational', []).append('IB__adapt__: an exception from bool(proxy answer) is treated as "provides"')
+                            continue
+                        found.append((tag + ': returns %r with pending exception %r; the documented order gives %r' % (s.ret, s.err, want), log, entry, nh))
+                        continue
+                    if want == ('raise', 'Could not adapt'):
+                        tv = [o for o in ex.objs if o.label == 'TypeError args']
+                    if s.balance:
+                        found.append((tag + ': unbalanced references at return %r' % s.balance, log, entry, nh))
+                agg['reached'] += len(sums)
+                agg['distinct'] += len(sums)
+        for need in (('ret', 'obj'), ('ret', 'alternate'), ('raise', 'Could not adapt'), ('ret', 'result of __conform__'),
+                     ('ret', 'result of hook1'), ('ret', 'result of the custom __adapt__'), ('raise', 'other')):
+            if need not in outcomes:
+                out['harness_errors'].append('ir_call: vacuous - no path with outcome %r' % (need,))
+        agg['exhaustive'] = exhausted
+        agg['solver_s'] = round(agg['solver_s'], 2)
+        agg['stubs'] = dict(irfun.COMMON_STUB_DOC, **_CallWorld.STUB_DOC)
+        seen = set()
+        # witnesses whose difference is visible from Python first (the object provides the interface / a hook answers)
+        found.sort(key=lambda f: (0 if ('provided?', 'yes') in f[1] else 1, 0 if any(e[1] == 'returns a value' and e[0].startswith('hook') for e in f[1]) else 1))
+        for k, (msg, log, entry, nh) in enumerate(found):
+            key = msg.rsplit(': ', 1)[-1][:120]
+            if key in seen or len(seen) >= 5:
+                continue
+            seen.add(key)
+            out['replays_attempted'] += 1
+            res = _replay_call_on_c(ctx, log, entry, nh)
+            if res.get('reproduced'):
+                out['replays_reproduced'] += 1
+                rpath = os.path.join(ctx['evdir'], 'replays', 'C14-ir_call-%d.json' % k)
+                os.makedirs(os.path.dirname(rpath), exist_ok=True)
+                json.dump(dict(property='C14', harness='ir_call', impl='c', ir_finding=msg, events=log, observed=res,
+                               how='PURE_PYTHON=0: objects whose __conform__/__adapt__/hooks behave as the events say; the call is compared with the Python reference implementation'),
+                          open(rpath, 'w'), indent=1)
+                out['violations'].append(dict(harness='ir_call', impl='c', signature='C14:ir:call',
+                                              msg='%s; reproduced on the real build: %s' % (msg[:500], res.get('msg', '')[:300]), replay=rpath))
+            else:
+                out['harness_errors'].append('ir_call: %s - NOT reproduced on the real build (%s); inconclusive' % (msg[:500], res.get('msg', '')[:200]))
+    finally:
+        shutil.rmtree(wd, ignore_errors=True)
+    agg['cpu_s'] = round(time.time() - t0, 1)
+    return out
+
+
+_REPLAY_CALL = r'''
+import gc, json, sys
+from vlib import boot
+boot.select('c')
+from zope.interface import Interface, implementer, interfacemethod
+from zope.interface import interface as zi
+log, entry, nh = json.loads(sys.argv[1])
+ev = dict((k, v) for k, v in log)
+class Boom(Exception): pass
+trace = []
+custom = ev.get('custom-adapt flag') == 'yes'
+def body(self, obj):
+    trace.append('custom')
+    o = ev.get('self.__adapt__(obj)', 'returns None')
+    if o == 'raises': raise Boom('custom')
+    return None if o == 'returns None' else 'custom-value'
+if custom:
+    class I(Interface):
+        @interfacemethod
+        def __adapt__(self, obj): return body(self, obj)
+else:
+    class I(Interface): pass
+class Ob: pass
+c = ev.get('getattr __conform__', 'raises AttributeError')
+if c == 'a callable':
+    def __conform__(self, iface):
+        trace.append('conform')
+        o = ev.get('self._call_conform(conform)', 'returns None')
+        if o == 'raises': raise Boom('conform')
+        return None if o == 'returns None' else 'conform-value'
+    Ob.__conform__ = __conform__
+elif c == 'is None':
+    Ob.__conform__ = None
+elif c == 'raises another exception':
+    Ob.__conform__ = property(lambda self: (_ for _ in ()).throw(Boom('getattr')))
+if ev.get('provided?') == 'yes':
+    Ob = implementer(I)(Ob)
+ob = Ob()
+def mk(i):
+    def hook(iface, o):
+        trace.append('hook%d' % i)
+        r = ev.get('hook%d(self, obj)' % i, 'returns None')
+        if r == 'raises': raise Boom('hook%d' % i)
+        return None if r == 'returns None' else 'hook%d-value' % i
+    return hook
+hooks = [mk(i) for i in range(nh)]
+def run(target):
+    del trace[:]
+    saved = list(zi.adapter_hooks); zi.adapter_hooks[:] = hooks
+    try:
+        try:
+            if entry == 'IB__adapt__': r = target.__adapt__(ob)
+            elif 'alternate' in ev.get('parse', ''): r = target(ob, 'ALT')
+            else: r = target(ob)
+            r = ('ret', 'ob' if r is ob else repr(r))
+        except Boom as e: r = ('raise', 'Boom')
+        except TypeError as e: r = ('raise', 'TypeError:%s' % (e.args[0] if e.args else ''))
+    finally:
+        zi.adapter_hooks[:] = saved
+    return [r, list(trace)]
+import sys as _s
+rc0 = None
+got = run(I)
+# the Python reference implementation of the same call on the same objects
+class PyTwin(zi.InterfaceBasePy): pass
+from zope.interface.interface import InterfaceBasePy
+call_py = InterfaceBasePy.__call__ if entry != 'IB__adapt__' else None
+def run_py():
+    del trace[:]
+    saved = list(zi.adapter_hooks); zi.adapter_hooks[:] = hooks
+    try:
+        try:
+            if entry == 'IB__adapt__': r = InterfaceBasePy.__adapt__(I, ob)
+            elif 'alternate' in ev.get('parse', ''): r = InterfaceBasePy.__call__(I, ob, 'ALT')
+            else: r = InterfaceBasePy.__call__(I, ob)
+            r = ('ret', 'ob' if r is ob else repr(r))
+        except Boom as e: r = ('raise', 'Boom')
+        except TypeError as e: r = ('raise', 'TypeError:%s' % (e.args[0] if e.args else ''))
+    finally:
+        zi.adapter_hooks[:] = saved
+    return [r, list(trace)]
+try:
+    want = run_py()
+except Exception as e:
+    want = ['reference failed', repr(e)]
+bad = []
+if json.dumps(got) != json.dumps(want):
+    bad.append('C gives %r, the Python reference gives %r' % (got, want))
+# reference growth over repeated calls (leaks on this path)
+import sys
+def count():
+    gc.collect(); return sys.getrefcount(ob) + sys.getrefcount(I) + sum(sys.getrefcount(h) for h in hooks) + sys.getrefcount(None) * 0
+b0 = count()
+for _ in range(200): run(I)
+b1 = count()
+if b1 - b0 > 50:
+    bad.append('reference counts of the operands grow by %d over 200 calls' % (b1 - b0))
+print(json.dumps(dict(reproduced=bool(bad), msg='; '.join(bad))))
+'''
+
+
+def _replay_call_on_c(ctx, log, entry, nh):
+    import subprocess
+    r = subprocess.run([ctx['py'], '-c', _REPLAY_CALL, json.dumps([log, entry, nh])], cwd=ctx['root'], env=ctx['env'],
+                       capture_output=True, text=True, timeout=120)
+    try:
+        return json.loads(r.stdout.strip().splitlines()[-1])
+    except Exception:
+        if r.returncode < 0 or r.returncode == 139:
+            return dict(reproduced=True, msg='the interpreter died (rc=%s) running this scenario on the C build' % r.returncode)
+        return dict(reproduced=False, msg='replay failed rc=%s: %s' % (r.returncode, (r.stderr or r.stdout)[-400:]))
+
+
 _ENC = ['zope.interface.interface:InterfaceBasePy.__call__', 'zope.interface.interface:InterfaceBasePy.__adapt__',
         'zope.interface.interface:InterfaceClass._call_conform', 'zope.interface.interface:InterfaceClass.__new__',
         'zope.interface.interface:interfacemethod', 'zope.interface.adapter:LookupBaseFallback.adapter_hook',
@@ -361,6 +867,17 @@ HARNESSES = [
             oracle='PEP 246 reference producing the expected event log and outcome; the real call log must be identical',
             stubs=['adapter_hooks replaced for the duration of one case and restored'],
             assumptions=['a TypeError raised inside a Python-level __conform__ must propagate (_call_conform docs)']),
+    Harness('ir_call', kind='custom', impls=('c',), run=run_ir_call, tiers=dict(quick={}, thorough={}),
+            encoded=['zope.interface._zope_interface_coptimizations:InterfaceBase'],
+            bounds='LLVM IR (clang-14 -O0 + mem2reg) of IB__call__ and IB__adapt__ (inlined) from the current C source; every path; every C-API '
+                   'call that can run Python or fail is a decision (arguments with/without alternate, __conform__ lookup 4 outcomes, '
+                   '_call_conform / custom __adapt__ / each hook: None, value, raises; providedBy(obj): specification, proxy, fails; provided '
+                   'or not; _CALL_CUSTOM_ADAPT present or not); adapter_hooks of length 0..2 (thorough 3)',
+            outside='more than 3 hooks; hooks that change adapter_hooks while they run (e_order covers them concretely); allocation failure',
+            oracle='the documented order as an automaton over the same event alphabet: it must ask for exactly the steps the C path '
+                   'performed, in that order, and give the same result / exception; frame reference balance on every path; findings are '
+                   'replayed on the real C build against the Python reference implementation (and for reference growth)',
+            stubs=['C-API contract stubs listed in the evidence (per_harness.stubs)']),
     Harness('e_registry', make_e_registry, kind='E', impls=('py', 'c'),
             tiers=dict(quick=dict(budget_s=30, parts=1), thorough=dict(budget_s=60, parts=1)),
             encoded=_ENC, bounds='registry.adapter_hook installed as the only hook; registration absent / for a base / for the provided '
